@@ -86,7 +86,7 @@ def impl_glob(p, s):
 
 
 GLOB_PAT_ALPHA = [b'a', b'b', b'*', b'?', b'[', b']', b'^', b'-', b'\\']
-GLOB_SUB_ALPHA = [b'a', b'b', b'-', b']', b'^', b'\\', b'*', b'[']
+GLOB_SUB_ALPHA = [b'a', b'b', b'-', b']', b'^', b'\\', b'*', b'[', b'\n']
 
 
 def glob_cases_random(rng, n):
